@@ -20,6 +20,7 @@ import (
 	"testing/synctest"
 	"time"
 
+	ocr2keepersv3 "github.com/smartcontractkit/chainlink-automation/pkg/v3"
 	"github.com/smartcontractkit/chainlink-automation/pkg/v3/runner"
 	ocr2keepers "github.com/smartcontractkit/chainlink-common/pkg/types/automation"
 )
@@ -87,6 +88,31 @@ type c13Call struct {
 	ExpAlign *int64       `json:"expAlign,omitempty"`
 	Timeout  int64        `json:"timeout,omitempty"` // caller's context: 0 context.Background(); >0 deadline that many ns after the call starts; <0 already cancelled
 	Payloads []c13Payload `json:"payloads"`
+	// Obs set: the call is not made on the runner directly but through an Observer's Process: the payloads are what the
+	// tick hands out, the pre-processors filter them, the runner is asked about the rest and the post-processor
+	// receives its results (Timeout > 0 is then the observer's process limit)
+	Obs *c13Obs `json:"obs,omitempty"`
+}
+
+// c13Pre: one pre-processor of an observer.  Kind selects what it does to the list (0 nothing, 1 keeps positions
+// 0,2,4,…, 2 keeps positions 1,3,5,…, 3 reverses, 4 drops the first, 5 returns none); Fails: it answers an error
+type c13Pre struct {
+	Kind  int  `json:"kind"`
+	Fails bool `json:"fails,omitempty"`
+}
+type c13Obs struct {
+	Generic   bool     `json:"generic,omitempty"` // NewGenericObserver(…, runner.CheckUpkeeps, …) instead of NewRunnableObserver(…, runner, …)
+	TickFails bool     `json:"tickFails,omitempty"`
+	Pres      []c13Pre `json:"pres"`
+	PostFails bool     `json:"postFails,omitempty"`
+}
+
+// c13LifeIn: life-cycle calls on top of the Start at the beginning and the Close at the end of every history
+type c13LifeIn struct {
+	PreClose bool    `json:"preClose,omitempty"` // Close before the runner was ever started
+	Starts   []int64 `json:"starts,omitempty"`   // one more Start at these instants (ns since the history started; the runner is running then)
+	Closes   []int64 `json:"closes,omitempty"`   // one more Close that many ns after the Close at CloseAt (only with CloseAt > 0)
+	Final    bool    `json:"final,omitempty"`    // one more Close after the Close that ends the history
 }
 
 // ExpAlign = d: additionally wait until (aggregation instant of the caller's latest
@@ -103,8 +129,9 @@ type c13Input struct {
 	Racy bool `json:"racy,omitempty"`
 	// CloseAt > 0: Runner.Close() is called that many ns after the history starts, whatever is in flight
 	CloseAt int64     `json:"closeAt,omitempty"`
-	Instant bool      `json:"instant,omitempty"` // the pipeline answers without any (virtual) delay: batches of a call complete concurrently
-	Calls   []c13Call `json:"calls"`
+	Instant bool       `json:"instant,omitempty"` // the pipeline answers without any (virtual) delay: batches of a call complete concurrently
+	Life    *c13LifeIn `json:"life,omitempty"`
+	Calls   []c13Call  `json:"calls"`
 }
 
 type c13Ev struct {
@@ -137,9 +164,32 @@ type c13Ret struct {
 	startAt  int64
 	returnAt int64
 }
+// c13Proc: what could be seen of one Observer.Process from outside
+type c13Proc struct {
+	C          int          `json:"c"`
+	Code       int          `json:"code"`     // error returned: 0 nil, 1 the tick's, 2 a pre-processor's, 3 ErrTooManyErrors, 4 the post-processor's, 5 anything else
+	PreCalls   int          `json:"preCalls"` // pre-processors invoked
+	Asked      bool         `json:"asked"`    // the runner was called (its arguments: AskedPs; its answer: the call's entry in rets)
+	AskedPs    []c13Payload `json:"askedPs,omitempty"`
+	AskedN     int          `json:"askedN"`     // times the runner was called (0 or 1)
+	PostCalls  int          `json:"postCalls"`  // times the post-processor was called (0 or 1); its arguments:
+	PostRes    []JCR        `json:"postRes,omitempty"`
+	PostPs     []c13Payload `json:"postPs,omitempty"`
+}
+
+// c13LifeOut: one life-cycle call and how it ended.  Out: 1 an error at once; for "close" 0 = nil; for "start" 0 = it took
+// the runner over (did not return until a Close, then nil), 2 = nil at once, 3 = it never returned
+type c13LifeOut struct {
+	Op  string `json:"op"`
+	At  int64  `json:"at"`
+	Out int    `json:"out"`
+}
+
 type c13Impl struct {
-	Events  []c13Ev  `json:"events"`
-	Rets    []c13Ret `json:"rets"`
+	Events  []c13Ev      `json:"events"`
+	Rets    []c13Ret     `json:"rets"`
+	Procs   []c13Proc    `json:"procs,omitempty"`
+	Life    []c13LifeOut `json:"life,omitempty"`
 	Problem string   `json:"problem,omitempty"` // harness-level anomaly (runner did not stop, call did not return)
 	Crashed bool     `json:"crashed,omitempty"` // the process died while this history ran (written by the parent process)
 	Crash   string   `json:"crash,omitempty"`   // first "panic:" / "fatal error:" line of the dead process
@@ -161,6 +211,7 @@ type c13Scn struct {
 	claimed map[int64]bool
 	events  []c13Ev
 	rets    []c13Ret
+	procs   []c13Proc
 	execs   uint64        // pipeline executions so far: makes every produced result unique
 	lastOK  map[int]int64 // caller -> aggregation instant of its latest successful batch
 	callers map[int]int   // call id -> caller
@@ -304,6 +355,100 @@ func (s *c13Scn) CheckUpkeeps(ctx context.Context, ps ...ocr2keepers.UpkeepPaylo
 	return out, nil
 }
 
+
+// ---------------------------------------------------------------- the stages of an Observer around the runner
+
+var (
+	errC13Tick = errors.New("c13: injected tick failure")
+	errC13Pre  = errors.New("c13: injected pre-processor failure")
+	errC13Post = errors.New("c13: injected post-processor failure")
+)
+
+type c13Tick struct {
+	ps   []ocr2keepers.UpkeepPayload
+	fail bool
+}
+
+func (t c13Tick) Value(context.Context) ([]ocr2keepers.UpkeepPayload, error) {
+	if t.fail {
+		return nil, errC13Tick
+	}
+	return t.ps, nil
+}
+
+func c13PreApply(kind int, ps []ocr2keepers.UpkeepPayload) []ocr2keepers.UpkeepPayload {
+	out := make([]ocr2keepers.UpkeepPayload, 0, len(ps))
+	switch kind {
+	case 1, 2:
+		for i, p := range ps {
+			if i%2 == kind-1 {
+				out = append(out, p)
+			}
+		}
+	case 3:
+		for i := len(ps) - 1; i >= 0; i-- {
+			out = append(out, ps[i])
+		}
+	case 4:
+		if len(ps) > 0 {
+			out = append(out, ps[1:]...)
+		}
+	case 5:
+	default:
+		out = append(out, ps...)
+	}
+	return out
+}
+
+type c13PreProc struct {
+	kind  int
+	fails bool
+	calls *int
+}
+
+// a failing pre-processor still hands back what it has (the list it would have returned): the error alone must stop the process
+func (p *c13PreProc) PreProcess(_ context.Context, ps []ocr2keepers.UpkeepPayload) ([]ocr2keepers.UpkeepPayload, error) {
+	*p.calls++
+	if p.fails {
+		return c13PreApply(p.kind, ps), errC13Pre
+	}
+	return c13PreApply(p.kind, ps), nil
+}
+
+type c13PostProc struct {
+	fail  bool
+	calls int
+	res   []ocr2keepers.CheckResult
+	ps    []ocr2keepers.UpkeepPayload
+}
+
+func (p *c13PostProc) PostProcess(_ context.Context, res []ocr2keepers.CheckResult, ps []ocr2keepers.UpkeepPayload) error {
+	p.calls++
+	p.res, p.ps = res, ps
+	if p.fail {
+		return errC13Post
+	}
+	return nil
+}
+
+// c13RunnerWrap stands between the observer and the real runner: it notes what the runner is asked
+type c13RunnerWrap struct {
+	do func(context.Context, []ocr2keepers.UpkeepPayload) ([]ocr2keepers.CheckResult, error)
+}
+
+func (w *c13RunnerWrap) CheckUpkeeps(ctx context.Context, ps ...ocr2keepers.UpkeepPayload) ([]ocr2keepers.CheckResult, error) {
+	return w.do(ctx, ps)
+}
+
+func c13BarePayloads(ps []ocr2keepers.UpkeepPayload) []c13Payload {
+	out := make([]c13Payload, len(ps))
+	for i, p := range ps {
+		out[i] = toC13Payload(p)
+		out[i].CD = ""
+	}
+	return out
+}
+
 // c13Run executes one history on a fresh real runner inside the current bubble.
 func c13Run(t *testing.T, in c13Input) c13Impl {
 	s := &c13Scn{t0: time.Now(), clean: in.Clean, claimed: map[int64]bool{}, lastOK: map[int]int64{}, callers: map[int]int{}, instant: in.Instant || in.Racy}
@@ -314,9 +459,50 @@ func c13Run(t *testing.T, in c13Input) c13Impl {
 	if err != nil {
 		return c13Impl{Problem: "NewRunner: " + err.Error()}
 	}
-	started := make(chan struct{})
-	go func() { r.Start(context.Background()); close(started) }()
-	synctest.Wait() // the running flag is set, the cleaner's ticker exists (first tick at t0+Clean)
+	nowNs := func() int64 { return time.Since(s.t0).Nanoseconds() }
+	// life-cycle calls, in the order they are made
+	type startRec struct {
+		idx    int
+		done   chan struct{}
+		err    error
+		atOnce bool
+	}
+	var lifeMu sync.Mutex
+	var life []c13LifeOut
+	var starts []*startRec
+	doClose := func() error {
+		err := r.Close()
+		out := 0
+		if err != nil {
+			out = 1
+		}
+		lifeMu.Lock()
+		life = append(life, c13LifeOut{Op: "close", At: nowNs(), Out: out})
+		lifeMu.Unlock()
+		return err
+	}
+	// doStart calls Start on a goroutine of its own and notes whether it came back at once
+	doStart := func(settle func()) *startRec {
+		rec := &startRec{done: make(chan struct{})}
+		lifeMu.Lock()
+		rec.idx = len(life)
+		life = append(life, c13LifeOut{Op: "start", At: nowNs()})
+		starts = append(starts, rec)
+		lifeMu.Unlock()
+		go func() { rec.err = r.Start(context.Background()); close(rec.done) }()
+		settle()
+		select {
+		case <-rec.done:
+			rec.atOnce = true
+		default:
+		}
+		return rec
+	}
+	if in.Life != nil && in.Life.PreClose {
+		doClose() // never started: must answer an error and leave the runner usable
+	}
+	first := doStart(synctest.Wait) // the running flag is set, the cleaner's ticker exists (first tick at t0+Clean)
+	started := first.done
 
 	byCaller := map[int][]c13Call{}
 	var order []int
@@ -351,37 +537,121 @@ func c13Run(t *testing.T, in c13Input) c13Impl {
 				for i, p := range c.Payloads {
 					ps[i] = fromC13Payload(p)
 				}
-				var startAt int64
-				if in.Racy {
-					s.log(c13Ev{T: "s", C: c.C})
-					startAt = time.Since(s.t0).Nanoseconds()
-				} else {
-					startAt = s.claim(c13Ev{T: "s", C: c.C})
+				// claimStart moves the caller to an instant of its own for the look-up loop of the call
+				claimStart := func() int64 {
+					if in.Racy {
+						s.log(c13Ev{T: "s", C: c.C})
+						return time.Since(s.t0).Nanoseconds()
+					}
+					return s.claim(c13Ev{T: "s", C: c.C})
 				}
-				ctx, cancel := context.Background(), context.CancelFunc(func() {})
+				// check is the call on the real runner, with everything seen of it noted
+				check := func(ctx context.Context, startAt int64, ps []ocr2keepers.UpkeepPayload) ([]ocr2keepers.CheckResult, error) {
+					vals, err := r.CheckUpkeeps(ctx, ps...)
+					ret := c13Ret{C: c.C, Vals: toJCRs(vals), Cancelled: c13CtxDone(ctx), raw: vals, startAt: startAt, returnAt: time.Since(s.t0).Nanoseconds()}
+					switch {
+					case err == nil:
+					case errors.Is(err, runner.ErrTooManyErrors):
+						ret.Err = 1
+					default:
+						ret.Err = 2
+					}
+					s.mu.Lock()
+					s.rets = append(s.rets, ret)
+					returned++
+					s.mu.Unlock()
+					return vals, err
+				}
+				if c.Obs == nil {
+					startAt := claimStart()
+					ctx, cancel := context.Background(), context.CancelFunc(func() {})
+					switch {
+					case c.Timeout > 0:
+						ctx, cancel = context.WithTimeout(ctx, time.Duration(c.Timeout))
+					case c.Timeout < 0:
+						ctx, cancel = context.WithCancel(ctx)
+						cancel()
+					}
+					check(ctx, startAt, ps)
+					cancel()
+					continue
+				}
+				// through an observer: tick -> pre-processors -> runner -> post-processor
+				pr := c13Proc{C: c.C}
+				var pres []ocr2keepersv3.PreProcessor[ocr2keepers.UpkeepPayload]
+				for _, p := range c.Obs.Pres {
+					pres = append(pres, &c13PreProc{kind: p.Kind, fails: p.Fails, calls: &pr.PreCalls})
+				}
+				post := &c13PostProc{fail: c.Obs.PostFails}
+				rw := &c13RunnerWrap{do: func(ctx context.Context, asked []ocr2keepers.UpkeepPayload) ([]ocr2keepers.CheckResult, error) {
+					pr.AskedN++
+					pr.Asked, pr.AskedPs = true, c13BarePayloads(asked)
+					return check(ctx, claimStart(), asked)
+				}}
+				limit := time.Hour
+				parent, cancel := context.Background(), context.CancelFunc(func() {})
 				switch {
 				case c.Timeout > 0:
-					ctx, cancel = context.WithTimeout(ctx, time.Duration(c.Timeout))
+					limit = time.Duration(c.Timeout)
 				case c.Timeout < 0:
-					ctx, cancel = context.WithCancel(ctx)
+					parent, cancel = context.WithCancel(parent)
 					cancel()
 				}
-				vals, err := r.CheckUpkeeps(ctx, ps...)
-				ret := c13Ret{C: c.C, Vals: toJCRs(vals), Cancelled: c13CtxDone(ctx), raw: vals, startAt: startAt, returnAt: time.Since(s.t0).Nanoseconds()}
+				var ob *ocr2keepersv3.Observer[ocr2keepers.UpkeepPayload]
+				if c.Obs.Generic {
+					ob = ocr2keepersv3.NewGenericObserver[ocr2keepers.UpkeepPayload](pres, post, rw.CheckUpkeeps, limit, quietLogger)
+				} else {
+					ob = ocr2keepersv3.NewRunnableObserver(pres, post, rw, limit, quietLogger)
+				}
+				perr := ob.Process(parent, c13Tick{ps: ps, fail: c.Obs.TickFails})
 				cancel()
 				switch {
-				case err == nil:
-				case errors.Is(err, runner.ErrTooManyErrors):
-					ret.Err = 1
+				case perr == nil:
+				case errors.Is(perr, errC13Tick):
+					pr.Code = 1
+				case errors.Is(perr, errC13Pre):
+					pr.Code = 2
+				case errors.Is(perr, runner.ErrTooManyErrors):
+					pr.Code = 3
+				case errors.Is(perr, errC13Post):
+					pr.Code = 4
 				default:
-					ret.Err = 2
+					pr.Code = 5
+				}
+				pr.PostCalls = post.calls
+				if post.calls > 0 {
+					pr.PostRes, pr.PostPs = toJCRs(post.res), c13BarePayloads(post.ps)
 				}
 				s.mu.Lock()
-				s.rets = append(s.rets, ret)
-				returned++
+				s.procs = append(s.procs, pr)
 				s.mu.Unlock()
 			}
 		}(k, byCaller[k])
+	}
+	// further Start calls while the runner is running
+	closedCh := make(chan struct{})
+	if in.Life != nil {
+		for _, at := range in.Life.Starts {
+			wgc.Add(1)
+			go func(at int64) {
+				defer wgc.Done()
+				if d := at - nowNs(); d > 0 {
+					time.Sleep(time.Duration(d))
+				}
+				doStart(func() { time.Sleep(time.Nanosecond) })
+			}(at)
+		}
+		if in.CloseAt > 0 {
+			for _, after := range in.Life.Closes {
+				wgc.Add(1)
+				go func(after int64) {
+					defer wgc.Done()
+					<-closedCh
+					time.Sleep(time.Duration(after))
+					doClose()
+				}(after)
+			}
+		}
 	}
 	done := make(chan struct{})
 	go func() { wgc.Wait(); close(done) }()
@@ -395,9 +665,10 @@ func c13Run(t *testing.T, in c13Input) c13Impl {
 			time.Sleep(time.Duration(d))
 		}
 		closedAt = s.claim(c13Ev{})
-		if err := r.Close(); err != nil {
+		if err := doClose(); err != nil {
 			problem += " Close: " + err.Error()
 		}
+		close(closedCh)
 	}
 	select {
 	case <-done:
@@ -422,9 +693,12 @@ func c13Run(t *testing.T, in c13Input) c13Impl {
 	}
 	s.mu.Unlock()
 	if closedAt == 0 {
-		if err := r.Close(); err != nil {
+		if err := doClose(); err != nil {
 			problem += " Close: " + err.Error()
 		}
+	}
+	if in.Life != nil && in.Life.Final {
+		doClose() // the runner is closed: must answer an error
 	}
 	select {
 	case <-started:
@@ -432,9 +706,33 @@ func c13Run(t *testing.T, in c13Input) c13Impl {
 		problem += " Start did not return after Close"
 	}
 	synctest.Wait()
+	lifeMu.Lock()
+	for _, rec := range starts {
+		returned := false
+		select {
+		case <-rec.done:
+			returned = true
+		default:
+		}
+		switch {
+		case returned && rec.err != nil && rec.atOnce:
+			life[rec.idx].Out = 1
+		case returned && rec.err == nil && rec.atOnce:
+			life[rec.idx].Out = 2
+		case returned && rec.err == nil:
+			life[rec.idx].Out = 0
+		case !returned:
+			life[rec.idx].Out = 3
+		default:
+			life[rec.idx].Out = 4 // an error, but only after it had taken the runner over
+		}
+	}
+	lifeOut := append([]c13LifeOut(nil), life...)
+	lifeMu.Unlock()
 	s.mu.Lock()
 	defer s.mu.Unlock()
 	sort.SliceStable(s.rets, func(i, j int) bool { return s.rets[i].C < s.rets[j].C })
+	sort.SliceStable(s.procs, func(i, j int) bool { return s.procs[i].C < s.procs[j].C })
 	for i := range s.events {
 		ev := &s.events[i]
 		for _, p := range ev.rawBatch {
@@ -446,7 +744,7 @@ func c13Run(t *testing.T, in c13Input) c13Impl {
 			ev.Res = toJCRs(ev.rawRes)
 		}
 	}
-	return c13Impl{Events: s.events, Rets: s.rets, Problem: problem}
+	return c13Impl{Events: s.events, Rets: s.rets, Procs: s.procs, Life: lifeOut, Problem: problem}
 }
 
 // ---------------------------------------------------------------- generator
@@ -679,6 +977,58 @@ func c13Gen(r *Rng, big bool, em *Emitter) c13Input {
 		em.Hit("expire=20m")
 	}
 	return in
+}
+
+// c13Decorate (a generator stream of its own, so that the histories of c13Gen stay what they were): some calls of a
+// history are made through an Observer (pre-processors that filter or fail, a tick or post-processor that fails,
+// either constructor), and some histories get further life-cycle calls (Close before Start, Start while running,
+// Close after Close).
+func c13Decorate(r *Rng, in *c13Input, em *Emitter) {
+	if r.Chance(35) {
+		n := 0
+		for i := range in.Calls {
+			c := &in.Calls[i]
+			if len(c.Payloads) > 150 || !r.Chance(50) {
+				continue
+			}
+			o := &c13Obs{Generic: r.Chance(50), Pres: []c13Pre{}}
+			for k, np := 0, r.Intn(4); k < np; k++ {
+				pre := c13Pre{Kind: r.Intn(6), Fails: r.Chance(10)}
+				if pre.Kind == 5 && !r.Chance(25) {
+					pre.Kind = 0
+				}
+				o.Pres = append(o.Pres, pre)
+			}
+			o.TickFails = r.Chance(4)
+			o.PostFails = r.Chance(12)
+			c.Obs = o
+			n++
+		}
+		if n > 0 {
+			em.Hit("history-with-observer-calls")
+		}
+	}
+	if r.Chance(25) {
+		l := &c13LifeIn{PreClose: r.Chance(40), Final: r.Chance(60)}
+		hi := 5_000_000
+		if in.CloseAt > 0 {
+			hi = int(in.CloseAt) - 500 // CloseAt >= 2000: the further Starts all find the runner running
+		}
+		for k, ns := 0, r.Range(0, 3); k < ns; k++ {
+			at := r.Range(1, hi)
+			if r.Chance(50) {
+				at = r.Range(1, 1500)
+			}
+			l.Starts = append(l.Starts, int64(at))
+		}
+		if in.CloseAt > 0 {
+			for k, nc := 0, r.Range(0, 2); k < nc; k++ {
+				l.Closes = append(l.Closes, int64(r.Range(1000, 3_000_000)))
+			}
+		}
+		in.Life = l
+		em.Hit("history-with-further-life-cycle-calls")
+	}
 }
 
 func c13Bucket(n int) int {
@@ -988,6 +1338,58 @@ func c13Edge() []c13Input {
 	// contract broken by the pipeline: dropped / duplicated / foreign / other block
 	out = append(out, hist(min20, 2, call(0, 1000, nil, pp{0, 0, c13Attr{Mut: 1}}, pp{1, 0, c13Attr{Mut: 2}}, pp{2, 0, c13Attr{Mut: 3}}, pp{3, 0, c13Attr{Mut: 4}}, pp{4, 0, ok}),
 		call(0, 1000, nil, pp{0, 0, ok}, pp{1, 0, ok}, pp{2, 0, ok}, pp{3, 0, ok}, pp{3, 2, ok}, pp{4, 0, ok})))
+	// ---- life cycle: Close before the first Start, two more Starts while running (one while a batch is inside the
+	// pipeline), Close twice at the end; the calls are served as if nothing had happened
+	lifeH := func(l c13LifeIn, in c13Input) c13Input { in.Life = &l; return in }
+	out = append(out, lifeH(c13LifeIn{PreClose: true, Starts: []int64{500, 500_000}, Final: true},
+		hist(min20, 2, call(0, 1000, nil, many(0, 12, 0, ok)...), call(0, 1000, nil, many(0, 14, 0, ok)...))))
+	// ... with the runner closed under way: Start before it, Close again after it, a call on the closed runner
+	out = append(out, lifeH(c13LifeIn{Starts: []int64{2000}, Closes: []int64{1000, 2_000_000}, Final: true},
+		closing(50_000_000, hist(min20, 2, call(0, 1000, nil, many(0, 7, 0, deaf)...), call(0, 1000, nil, many(0, 12, 0, ok)...)))))
+	// ---- zero batches: a call on the closed runner with nothing cached (no result, no error), with part of it cached
+	// (the hits), an empty call on the closed runner; and a done context with everything / nothing cached
+	out = append(out, closing(5_000_000, hist(min20, 2, call(0, 1000, nil, many(0, 5, 0, ok)...), call(0, 10_000_000, nil, many(20, 12, 0, ok)...),
+		call(0, 1000, nil, many(0, 12, 0, ok)...), call(0, 1000, nil), call(0, 1000, nil, many(0, 5, 0, ok)...))))
+	out = append(out, hist(min20, 2, call(0, 1000, nil, many(0, 25, 0, ok)...), ctxCall(-1, many(0, 25, 0, ok)...), ctxCall(-1, many(30, 25, 0, ok)...), ctxCall(-1)))
+	// ---- calls through an Observer
+	obs := func(c c13Call, o c13Obs) c13Call {
+		if o.Pres == nil {
+			o.Pres = []c13Pre{}
+		}
+		c.Obs = &o
+		return c
+	}
+	for _, generic := range []bool{false, true} {
+		// no pre-processor / filters only: 25 payloads -> positions 0,2,4,… -> reversed -> first dropped = 12 asked
+		out = append(out, hist(min20, 2,
+			obs(call(0, 1000, nil, many(0, 25, 0, ok)...), c13Obs{Generic: generic}),
+			obs(call(0, 1000, nil, many(0, 25, 0, ok)...), c13Obs{Generic: generic, Pres: []c13Pre{{Kind: 1}, {Kind: 3}, {Kind: 4}}}),
+			obs(call(0, 1000, nil, many(0, 30, 0, ok)...), c13Obs{Generic: generic, Pres: []c13Pre{{Kind: 2}}})))
+		// a pre-processor fails: first of one, second of three (the third is not invoked), the last; then the same payloads unhindered
+		out = append(out, hist(min20, 2,
+			obs(call(0, 1000, nil, many(0, 12, 0, ok)...), c13Obs{Generic: generic, Pres: []c13Pre{{Kind: 0, Fails: true}}}),
+			obs(call(0, 1000, nil, many(0, 12, 0, ok)...), c13Obs{Generic: generic, Pres: []c13Pre{{Kind: 1}, {Kind: 3, Fails: true}, {Kind: 4}}}),
+			obs(call(0, 1000, nil, many(0, 12, 0, ok)...), c13Obs{Generic: generic, Pres: []c13Pre{{Kind: 4}, {Kind: 5, Fails: true}}}),
+			obs(call(0, 1000, nil, many(0, 12, 0, ok)...), c13Obs{Generic: generic, Pres: []c13Pre{{Kind: 4}}})))
+		// the tick fails; the post-processor fails (the results were checked and cached all the same); everything filtered away
+		out = append(out, hist(min20, 2,
+			obs(call(0, 1000, nil, many(0, 12, 0, ok)...), c13Obs{Generic: generic, TickFails: true, Pres: []c13Pre{{Kind: 0}}}),
+			obs(call(0, 1000, nil, many(0, 12, 0, ok)...), c13Obs{Generic: generic, PostFails: true, Pres: []c13Pre{{Kind: 0}}}),
+			obs(call(0, 1000, nil, many(0, 12, 0, ok)...), c13Obs{Generic: generic, Pres: []c13Pre{{Kind: 5}}}),
+			obs(call(0, 1000, nil), c13Obs{Generic: generic, Pres: []c13Pre{{Kind: 1}}}),
+			obs(call(0, 1000, nil, many(0, 12, 0, ok)...), c13Obs{Generic: generic, PostFails: true})))
+		// every batch fails: the runner's error ends the process, the post-processor is not called; one of two batches fails
+		out = append(out, hist(min20, 2,
+			obs(call(0, 1000, nil, many(0, 25, 0, bad)...), c13Obs{Generic: generic, Pres: []c13Pre{{Kind: 3}}}),
+			obs(call(0, 1000, nil, append(many(0, 10, 0, ok), many(10, 5, 0, bad)...)...), c13Obs{Generic: generic})))
+		// the process limit ends between the first batch and the others; a parent context that is already done
+		limited := obs(ctxCall(50_000_000, append(many(0, 10, 0, fast), many(10, 15, 0, slow)...)...), c13Obs{Generic: generic, Pres: []c13Pre{{Kind: 0}}})
+		out = append(out, hist(min20, 4, limited, obs(ctxCall(-1, many(0, 20, 0, ok)...), c13Obs{Generic: generic})))
+	}
+	// through an observer on a runner that is closed under way, and afterwards
+	out = append(out, closing(50_000_000, hist(min20, 2,
+		obs(call(0, 1000, nil, many(0, 7, 0, deaf)...), c13Obs{Pres: []c13Pre{{Kind: 0}}}),
+		obs(call(0, 1000, nil, many(0, 12, 0, ok)...), c13Obs{Generic: true, Pres: []c13Pre{{Kind: 3}}}))))
 	return out
 }
 
@@ -1028,8 +1430,13 @@ func TestC13(t *testing.T) {
 		r := NewRng(seed())
 		n := tierN(700, 7000)
 		nbig := tierN(6, 60)
+		rd := NewRng(seed() ^ 0xdec13)
 		for i := 0; i < n; i++ {
-			add("gen", c13Gen(r, i < nbig, em))
+			in := c13Gen(r, i < nbig, em)
+			if i >= nbig {
+				c13Decorate(rd, &in, em)
+			}
+			add("gen", in)
 		}
 		rl := NewRng(seed() ^ 0x10c13)
 		for i, nl := 0, tierN(3, 40); i < nl; i++ {
